@@ -64,6 +64,38 @@ def base_summaries_M(cfg, rep):
             loc[path] = lambda ctx: mk("gsmul_limbs", ctx.args[0], ctx.args[1])
         if path.endswith("::conditional_select") and b.get("impl_self") == "min_curve::element::Element":
             loc[path] = lambda ctx: Tm.ite(mk("choice_true", ctx.args[2]), ctx.args[1], ctx.args[0])
+    # the addition formula may live in an inherent helper that the operator impl forwards to (and that sibling impls call directly):
+    # an inherent two-element function whose fully inlined coordinates are those of `<Element as Add>::add` IS the base addition
+    base_add = "<min_curve::element::Element as core::ops::Add>::add"
+    if base_add in cfg.prog.bodies:
+        cache = cfg.cache.setdefault("$add_equivalents", None)
+        if cache is None:
+            cache = []
+            try:
+                ref = cfg.run(base_add)
+                rc = C.coords(ref.value)
+                rb = cfg.prog.bodies[base_add]
+                rnames = [p_.get("name") for p_ in rb["params"]]
+                N = cfg.norm
+                for path, b in cfg.prog.bodies.items():
+                    if not path.startswith("min_curve::element::Element::") or b.get("dk") not in ("AssocFn", "Fn") or len(b.get("params", [])) != 2:
+                        continue
+                    ins = [str(x) for x in (b.get("inputs") or [])]
+                    if not all("min_curve::element::Element" in x for x in ins) or "Element" not in str(b.get("output", "")):
+                        continue
+                    o2 = cfg.run(path)
+                    c2 = C.coords(o2.value)
+                    if rc is None or c2 is None or o2.unmodelled:
+                        continue
+                    n2 = [p_.get("name") for p_ in b["params"]]
+                    ren = {mk("param", n2[0]): mk("param", rnames[0]), mk("param", n2[1]): mk("param", rnames[1])}
+                    if all(N.pkey(N.poly(Tm.subst(x, ren))) == N.pkey(N.poly(y)) for x, y in zip(c2, rc)):
+                        cache.append(path)
+            except Exception:
+                cache = []
+            cfg.cache["$add_equivalents"] = cache
+        for path in cache:
+            loc[path] = lambda ctx: mk("gadd", ctx.args[0], ctx.args[1])
     return loc
 
 
